@@ -279,15 +279,73 @@ fn check_random(t: &mut Tape, ctx: &Ctx) -> Outcome {
     }
 }
 
+/// VAL over numeric-looking texts: every documented spelling (decimal, exponent with E e D d,
+/// type suffix, & octal and &H hex with all sixteen digits in both cases), with blanks and junk.
+fn check_val(t: &mut Tape, ctx: &Ctx) -> Outcome {
+    let mut x = String::new();
+    x.push_str(*t.pick(&["", "", " ", "  "]));
+    match t.below(6) {
+        0 | 1 => {
+            x.push_str(*t.pick(&["&H", "&h", "&"]));
+            let n = 1 + t.below(5);
+            for _ in 0..n {
+                x.push(*t.pick(&['0', '1', '7', '8', '9', 'A', 'B', 'C', 'D', 'E', 'F', 'a', 'b', 'c', 'd', 'e', 'f', 'G']));
+            }
+        }
+        _ => {
+            x.push_str(*t.pick(&["", "", "-", "+"]));
+            let n = t.below(9);
+            for _ in 0..n {
+                x.push(*t.pick(&['0', '1', '2', '5', '9']));
+            }
+            if t.chance(1, 2) {
+                x.push('.');
+                let n = t.below(5);
+                for _ in 0..n {
+                    x.push(*t.pick(&['0', '1', '2', '5', '9']));
+                }
+            }
+            if t.chance(1, 2) {
+                x.push(*t.pick(&['E', 'e', 'D', 'd']));
+                x.push_str(*t.pick(&["", "", "-", "+"]));
+                let n = t.below(3);
+                for _ in 0..n {
+                    x.push(*t.pick(&['0', '1', '2', '3']));
+                }
+            }
+            x.push_str(*t.pick(&["", "", "", "!", "#", "%"]));
+        }
+    }
+    x.push_str(*t.pick(&["", "", "", " ", "x", "é", ",5", " 1", "E", "D2", "&H1"]));
+    let stmts = vec![
+        Stmt::Let { lv: Lval::Var(Name::new("S$")), e: E::Str(x.clone()), kw: false },
+        Stmt::Let { lv: Lval::Var(Name::new("P$")), e: E::Str(String::new()), kw: false },
+        print_b(call("VAL", vec![v("S$")])),
+        print_b(call("VAL", vec![bin(Bin::Add, E::Str("-".into()), v("S$"))])),
+    ];
+    let text = render_stmts(&stmts);
+    match run_case(&stmts, false) {
+        Ok(_) => {
+            let o = Outcome::pass(x.contains('&') || x.contains(|c: char| "EeDd".contains(c)), hash_str(&text)).with_labels(vec![if x.contains('&') { "& / &H text" } else { "decimal text" }]);
+            if ctx.render {
+                o.with_case(text)
+            } else {
+                o
+            }
+        }
+        Err((c, d)) => Outcome::fail(&c, d, text),
+    }
+}
+
 pub fn property() -> Property {
     Property {
         id: "C07",
         rule: "Cases: 22 forms — LEN, LEFT$, RIGHT$, MID$ (2 and 3 arguments), INSTR (2 and 3 arguments), ASC, CHR$, STRING$ (string and code), SPC, STR$/VAL, HEX$/OCT$, MID$ assignment (2 and 3 arguments), the 255-character store limit, comparison and concatenation, and four metamorphic identities \
 (LEFT$(s,n)+MID$(s,n+1)=s; LEN(LEFT$(s,n))=min(n,len); CHR$(ASC(c))=c; an INSTR hit r satisfies MID$(s,r,LEN(p))=p). (matrix) the exhaustive cross product of 12 subject strings (empty, ASCII, 2/3/4-byte characters, mixed, 254/255-character strings built by STRING$ and concatenation), 11 patterns and 19 positions/counts \
-(0, 1, 2, len-1, len, len+1, 254..256, 32767, 32768, 65536, negative, fractional, Double); (random) proptest-generated strings over a 16-character alphabet with patterns cut out of the subject. \
+(0, 1, 2, len-1, len, len+1, 254..256, 32767, 32768, 65536, negative, fractional, Double); (random) proptest-generated strings over a 16-character alphabet with patterns cut out of the subject; (val_texts) VAL of generated numeric texts: signs, digits, fraction, E e D d exponents, type suffixes, & and &H forms over all hex digits in both cases, leading blanks, trailing junk. \
 Oracle: reference implementations on characters written from Chapter 3; results exact, out-of-domain arguments must give a BASIC error (the named code where the manual names one). Open points skipped: INSTR with a negative start, INSTR beyond the end with an empty pattern. \
 Non-trivial: a multi-byte subject or a boundary position; distinct by case.",
         assumptions: vec!["string comparison is by code point (the manual only says strings compare)", "values are observed through PRINT between < and > markers"],
-        subs: vec![Sub::items("boundary_matrix", gen_matrix, check_matrix, true), Sub::tape("random_strings", check_random, 400_000, 8_000_000, 80)],
+        subs: vec![Sub::items("boundary_matrix", gen_matrix, check_matrix, true), Sub::tape("random_strings", check_random, 400_000, 8_000_000, 80), Sub::tape("val_texts", check_val, 150_000, 4_000_000, 40)],
     }
 }
